@@ -90,6 +90,32 @@ def one_case(rng, idx):
     finally:
         shutil.rmtree(d, ignore_errors=True)
 
+FD_SIGNATURE = 'more subpaths on one rank than the process may keep open'
+
+def fd_case():
+    """K3: every subpath a rank owns stays open until the object is destroyed; beyond the process's open-file limit the
+    streams fail to open and their lines are dropped without any report."""
+    d = os.path.join(BUILD, 'io', 'c19-fd-%d' % os.getpid())
+    shutil.rmtree(d, ignore_errors=True)
+    os.makedirs(os.path.join(d, 'out'))
+    try:
+        exe, err = compile_sim('io', ['harness/io.cpp'])
+        if exe is None:
+            return []
+        nsub, room = 40, 16
+        ops = ['w 0 s%02d line-%d' % (k, k) for k in range(nsub)]
+        hist = os.path.join(d, 'hist.txt')
+        open(hist, 'w').write('\n'.join(ops) + '\n')
+        r = simrun(exe, 1, ['multi', os.path.join(d, 'out', 'pre'), hist, 16, 0, room], seed=1, wall=60)
+        have = sum(1 for k in range(nsub) if os.path.exists(os.path.join(d, 'out', 'pre', 's%02d' % k)) and
+                   open(os.path.join(d, 'out', 'pre', 's%02d' % k)).read() == 'line-%d\n' % k)
+        if r['verdict'] != 'ok' or have != nsub:
+            return [{'what': '%s: 1 rank, %d subpaths with one line each, open-file limit = files already open + %d: %d of %d files hold their line%s' % (
+                FD_SIGNATURE, nsub, room, have, nsub, '' if r['verdict'] == 'ok' else ' (run ended with %s)' % r['verdict']), 'cmd': r['cmd']}]
+        return []
+    finally:
+        shutil.rmtree(d, ignore_errors=True)
+
 def run(tier, seed, replay=None):
     def explore(seed_, count):
         rng = random.Random(seed_ * 7907 + 3)
@@ -100,7 +126,14 @@ def run(tier, seed, replay=None):
     def tie(res):
         results = explore(seed, 36 if tier == 'quick' else 600)
         fails = [f for r in results for f in r.get('fails', [])]
-        return {'ok': True, 'msg': None, 'failures': fails, 'validated': len(results), 'evaluations': len(results),
+        known = []
+        for f in fd_case():
+            k = [x for x in load_known() if x.get('status') == 'known' and x.get('property') == 'C19' and x.get('signature') and x['signature'] in f['what']]
+            if k:
+                known.append(k[0]['what'])
+            else:
+                fails.append(f)
+        return {'ok': True, 'msg': None, 'failures': fails, 'known': known, 'validated': len(results), 'evaluations': len(results),
                 'nontrivial': sum(1 for r in results if r.get('case', {}).get('writes', 0) > 5),
                 'rule': 'generated write histories (many subpaths incl. nested directories, lines longer than the buffer, empty lines, buffer lengths 0/1/16/1 MB, append on/off over pre-existing content, 1-6 ranks, capacities 0/1 KB/16 MB); daily_output with timestamps on day/month/year/leap-day boundaries compared with Python\'s UTC calendar; non-trivial: more than 5 writes',
                 'samples': [r['case'] for r in results[:2] if 'case' in r],
